@@ -12,6 +12,8 @@ SmallQ == { R(p, "", po, hint, e, <<"h2">>, FALSE) : p \in {1, 2}, po \in {0, 84
 WithAlpn(r, al) == [r EXCEPT !.alpn = al]
 \* the two records carry different ALPN lists (the later one shorter), both with the default protocol
 Recs2q == { <<WithAlpn(a, <<"h3", "h2">>), b>> : a \in SmallQ, b \in SmallQ }
+          \* two lists that only differ in where one protocol id ends: an id may contain any byte, a comma included
+          \cup { <<WithAlpn(a, <<"h3,h2">>), WithAlpn(b, <<"h3", "h2">>)>> : a \in SmallQ, b \in SmallQ }
 Net2 == {"tcp", "tcp4"}
 RecsQ == Recs0 \cup Recs1
 RecsT == Recs0 \cup Recs1 \cup Recs2
